@@ -210,6 +210,108 @@ pub fn exhaustive(max_len: usize, ctx: &Ctx) -> ExhaustiveResult {
     total
 }
 
+/// every string over the full ASCII range (all 128 bytes) of length 0..=3, plain and behind a raw
+/// prefix: no character class of the identifier grammar can be mis-drawn without being seen here
+pub fn exhaustive_ascii(ctx: &Ctx) -> ExhaustiveResult {
+    let next = std::sync::atomic::AtomicUsize::new(0);
+    let results: Mutex<Vec<ExhaustiveResult>> = Mutex::new(vec![]);
+    std::thread::scope(|s| {
+        for _ in 0..ctx.jobs.max(1) {
+            s.spawn(|| {
+                let mut res = ExhaustiveResult { evaluated: 0, accepted: 0, nontrivial: 0, known: Default::default(), failure: None, samples: vec![] };
+                loop {
+                    // one job per first byte (and job 128 for the strings shorter than that)
+                    let j = next.fetch_add(1, std::sync::atomic::Ordering::SeqCst);
+                    if j > 128 {
+                        break;
+                    }
+                    let mut buf = String::new();
+                    let mut spans: Vec<(usize, usize)> = vec![];
+                    let mut push = |bytes: &[u8], buf: &mut String, spans: &mut Vec<(usize, usize)>| {
+                        for raw in [false, true] {
+                            let st = buf.len();
+                            if raw {
+                                buf.push_str("r#");
+                            }
+                            for b in bytes {
+                                buf.push(*b as char);
+                            }
+                            spans.push((st, buf.len()));
+                        }
+                    };
+                    if j == 128 {
+                        push(&[], &mut buf, &mut spans);
+                    } else {
+                        let a = j as u8;
+                        push(&[a], &mut buf, &mut spans);
+                        for b in 0u8..128 {
+                            push(&[a, b], &mut buf, &mut spans);
+                            for c in 0u8..128 {
+                                push(&[a, b, c], &mut buf, &mut spans);
+                            }
+                        }
+                    }
+                    let leaked: &'static mut str = Box::leak(buf.into_boxed_str());
+                    let leaked_ptr: *mut str = leaked;
+                    let stat: &'static str = unsafe { &*leaked_ptr };
+                    for (a, b) in spans {
+                        let seg: &'static str = &stat[a..b];
+                        res.evaluated += 1;
+                        let want = accepts(seg);
+                        let got = Path::from_segments([seg]);
+                        let ok = match (&got, want) {
+                            (Ok(p), true) => p.segments == vec![seg],
+                            (Err(PathError::InvalidIdentifier { segment: 0 }), false) => true,
+                            _ => false,
+                        };
+                        if want {
+                            res.accepted += 1;
+                        }
+                        if seg.len() >= 2 {
+                            res.nontrivial += 1;
+                        }
+                        if res.samples.len() < 2 && res.evaluated % 40009 == 7 {
+                            res.samples.push(json!({"segment": seg, "accepted_by_reference": want}));
+                        }
+                        if !ok {
+                            let sig = sig_of(seg);
+                            if ctx.known.is_open("C18", sig).is_some() {
+                                *res.known.entry(sig.to_string()).or_default() += 1;
+                            } else if res.failure.as_ref().map_or(true, |(s, _)| s.len() > seg.len()) {
+                                res.failure = Some((seg.to_string(), format!("[sig:{sig}] from_segments([{seg:?}]) = {got:?}, reference grammar says accept={want}")));
+                            }
+                        }
+                    }
+                    unsafe {
+                        drop(Box::from_raw(leaked_ptr));
+                    }
+                }
+                results.lock().unwrap().push(res);
+            });
+        }
+    });
+    let mut total = ExhaustiveResult { evaluated: 0, accepted: 0, nontrivial: 0, known: Default::default(), failure: None, samples: vec![] };
+    for r in results.into_inner().unwrap() {
+        total.evaluated += r.evaluated;
+        total.accepted += r.accepted;
+        total.nontrivial += r.nontrivial;
+        for (k, v) in r.known {
+            *total.known.entry(k).or_default() += v;
+        }
+        if let Some(f) = r.failure {
+            if total.failure.as_ref().map_or(true, |(s, _)| (s.len(), s.as_str()) > (f.0.len(), f.0.as_str())) {
+                total.failure = Some(f);
+            }
+        }
+        for s in r.samples {
+            if total.samples.len() < 3 {
+                total.samples.push(s)
+            }
+        }
+    }
+    total
+}
+
 // --------------------------------------------------------------------------------- proptest part
 
 fn seg_valid() -> impl Strategy<Value = String> {
@@ -220,6 +322,8 @@ fn seg_valid() -> impl Strategy<Value = String> {
         1 => Just("_".to_string()),
         1 => Just("r#_".to_string()),
         1 => "[A-Za-z_][A-Za-z0-9_]{30,70}",
+        1 => "[A-Za-z_][A-Za-z0-9_]{250,270}",
+        1 => "r#[A-Za-z_][A-Za-z0-9_]{60,70}",
     ]
 }
 
@@ -228,6 +332,8 @@ fn seg_near_miss() -> impl Strategy<Value = String> {
         2 => Just(String::new()),
         2 => "[0-9][A-Za-z0-9_]{0,4}",
         2 => "[A-Za-z_]{1,3}[-+ .#!][A-Za-z_]{0,3}",
+        2 => "[A-Za-z_]{1,3}[\\x20-\\x2f\\x3a-\\x40\\x5b-\\x5e\\x60\\x7b-\\x7f][A-Za-z_0-9]{0,3}",
+        1 => "[\\x20-\\x2f\\x3a-\\x40\\x5b-\\x5e\\x60\\x7b-\\x7f][A-Za-z_]{1,3}",
         1 => Just("r#".to_string()),
         1 => Just("r#r#a".to_string()),
         1 => Just("r#1".to_string()),
@@ -236,6 +342,8 @@ fn seg_near_miss() -> impl Strategy<Value = String> {
         1 => Just("a#".to_string()),
         2 => "[a-z]{0,2}[éßπ\u{0}\u{7f}][a-z]{0,2}",
         1 => "[a-z]{1,2}:[a-z]{0,2}",
+        1 => "[a-z]{1,2}:[a-z]{1,2}",
+        1 => "[A-Za-z_][A-Za-z0-9_]{120,300}-",
         1 => " [a-z]{1,3}",
         1 => "[a-z]{1,3} ",
     ]
@@ -326,7 +434,10 @@ pub struct NewCase {
 pub fn new_body(c: &NewCase, obs: &mut Obs) -> Result<(), String> {
     // module path segments must not contain ':' so that splitting on "::" is unambiguous, and the
     // module path must not be empty (the statement does not say what an empty module path means)
-    if c.module.is_empty() || c.module.iter().any(|s| s.contains(':')) || c.ident.contains(':') {
+    // a segment may contain a single inner ':' (then it is simply not an identifier); anything that
+    // could form "::" together with the separator would make the split ambiguous and is left out
+    let ambiguous = |s: &String| s.contains("::") || s.starts_with(':') || s.ends_with(':');
+    if c.module.is_empty() || c.module.iter().any(ambiguous) || ambiguous(&c.ident) {
         return Ok(());
     }
     let module_path = leak(&c.module.join("::"));
